@@ -25,6 +25,8 @@ func C12(r *core.Run) {
 	ruleConstants(r)
 	arrayItems(r)
 	boundNarrowing(r)
+	freshExtensions(r)
+	attributeIndependence(r, "sym_sites", "buildField", "buildProperty") // a declared rule is emitted whatever the sibling attributes are
 }
 
 // boundPresence: a bound is emitted iff it is declared (pure nil test).
@@ -206,47 +208,74 @@ func ruleConstants(r *core.Run) {
 
 // arrayItems: item constraints move under repeated.items.
 func arrayItems(r *core.Run) {
-	r.Rule("R-FLOW/items", "array arm of buildProperty: the (buf.validate.field) constraints built for the item type become RepeatedRules.Items of the array field, and MinItems/MaxItems/Unique are copied from the array rules")
+	r.Rule("R-FLOW/items", "container arms of buildProperty: the (buf.validate.field) constraints built for the item type become RepeatedRules.Items of an array field and MapRules.Values of a map field (set in the literal or by assignment, from a local read with proto.GetExtension(<item>.Options, validate.E_Field)); MinItems/MaxItems/Unique are copied from the array rules")
 	fd, pk := r.P.FuncDecl(convRel, "buildProperty")
 	if fd == nil {
 		return
 	}
 	info := pk.TypesInfo
-	itemsSrc := ""
 	var itemsPos token.Pos
 	copies := map[string]string{}
+	elemSrc := map[string]string{} // "RepeatedRules.Items" -> source expr
+	elemPos := map[string]token.Pos{}
+	want := map[string]string{"RepeatedRules": "Items", "MapRules": "Values"}
 	ast.Inspect(fd.Body, func(n ast.Node) bool {
 		switch x := n.(type) {
 		case *ast.CompositeLit:
-			if strings.HasSuffix(core.TypeStr(info.TypeOf(x)), "validate.RepeatedRules") {
-				for _, e := range x.Elts {
-					if kv, ok := e.(*ast.KeyValueExpr); ok && core.ExprStr(kv.Key) == "Items" {
-						itemsSrc, itemsPos = core.ExprStr(kv.Value), kv.Pos()
+			ts := core.TypeStr(info.TypeOf(x))
+			for typ, field := range want {
+				if strings.HasSuffix(ts, "validate."+typ) {
+					if _, seen := elemPos[typ+"."+field]; !seen {
+						elemPos[typ+"."+field] = x.Pos()
+					}
+					if typ == "RepeatedRules" {
+						itemsPos = x.Pos()
+					}
+					for _, e := range x.Elts {
+						if kv, ok := e.(*ast.KeyValueExpr); ok && core.ExprStr(kv.Key) == field {
+							elemSrc[typ+"."+field] = core.ExprStr(kv.Value)
+						}
 					}
 				}
 			}
 		case *ast.AssignStmt:
-			if len(x.Lhs) == 1 && strings.HasPrefix(core.ExprStr(x.Lhs[0]), "repeated.") {
-				copies[strings.TrimPrefix(core.ExprStr(x.Lhs[0]), "repeated.")] = core.ExprStr(x.Rhs[0])
+			if len(x.Lhs) == 1 && len(x.Rhs) == 1 {
+				if sel, ok := x.Lhs[0].(*ast.SelectorExpr); ok {
+					ts := core.TypeStr(info.TypeOf(sel.X))
+					for typ, field := range want {
+						if strings.HasSuffix(ts, "validate."+typ) && sel.Sel.Name == field {
+							elemSrc[typ+"."+field] = core.ExprStr(x.Rhs[0])
+						}
+					}
+					if strings.HasSuffix(ts, "validate.RepeatedRules") {
+						copies[sel.Sel.Name] = core.ExprStr(x.Rhs[0])
+					}
+				}
 			}
 		}
 		return true
 	})
-	o := r.Add("R-FLOW/items", "j5convert.buildProperty | RepeatedRules.Items", itemsPos, "item constraints of an array")
-	// itemsSrc must be a local assigned from GetExtension(fieldDesc.Options, validate.E_Field)
-	okSrc := false
-	ast.Inspect(fd.Body, func(n ast.Node) bool {
-		if as, ok := n.(*ast.AssignStmt); ok && len(as.Lhs) == 1 && core.ExprStr(as.Lhs[0]) == itemsSrc {
-			if strings.Contains(core.ExprStr(as.Rhs[0]), "proto.GetExtension(fieldDesc.Options, validate.E_Field)") {
-				okSrc = true
+	for _, k := range []string{"RepeatedRules.Items", "MapRules.Values"} {
+		o := r.Add("R-FLOW/items", "j5convert.buildProperty | "+k, elemPos[k], "item constraints of a container field")
+		src := elemSrc[k]
+		okSrc := false
+		ast.Inspect(fd.Body, func(n ast.Node) bool {
+			if as, ok := n.(*ast.AssignStmt); ok && len(as.Lhs) == 1 && src != "" && core.ExprStr(as.Lhs[0]) == src {
+				rs := core.ExprStr(as.Rhs[0])
+				if strings.Contains(rs, "proto.GetExtension(") && strings.Contains(rs, ".Options, validate.E_Field)") {
+					okSrc = true
+				}
 			}
+			return true
+		})
+		switch {
+		case src == "":
+			o.Fail("no %s is ever set in buildProperty: the rules of the item type are not applied to the elements (they stay on a field the validator does not look at, or are lost)", k)
+		case okSrc:
+			o.Auto("%s ← %s = the item descriptor's own (buf.validate.field)", k, src)
+		default:
+			o.Fail("%s is %q, not the constraints built for the item type", k, src)
 		}
-		return true
-	})
-	if okSrc {
-		o.Auto("Items ← %s = the item descriptor's own (buf.validate.field)", itemsSrc)
-	} else {
-		o.Fail("RepeatedRules.Items is %q, not the constraints built for the item type", itemsSrc)
 	}
 	for dst, src := range map[string]string{"MinItems": "st.Array.Rules.MinItems", "MaxItems": "st.Array.Rules.MaxItems", "Unique": "st.Array.Rules.UniqueItems"} {
 		o := r.Add("R-FLOW/items", "j5convert.buildProperty | repeated."+dst, itemsPos, "repeated."+dst)
@@ -301,4 +330,136 @@ func boundNarrowing(r *core.Run) {
 		}
 		return true
 	})
+}
+
+// freshExtensions (R-SYM/S9): proto.SetExtension stores the pointer it is
+// given, and buildProperty later updates the stored (buf.validate.field)
+// message in place (Required). A message shared between fields — a package
+// level variable, or anything reachable from one — would carry one field's
+// flags over to all the others.
+func freshExtensions(r *core.Run) {
+	r.Rule("R-SYM/S9", "every message handed to proto.SetExtension in j5convert is a per-field value: a composite literal, the result of a constructor that returns one, or the message just read from the same options with proto.GetExtension; never a package-level variable (the stored pointer is updated in place later)")
+	pk := r.P.Pkg(convRel)
+	if pk == nil {
+		r.Fatal("anchor: package %s not found", convRel)
+		return
+	}
+	info := pk.TypesInfo
+	n := 0
+	core.AllFuncDecls(pk, func(fd *ast.FuncDecl) {
+		var fresh func(e ast.Expr, depth int) (bool, string)
+		fresh = func(e ast.Expr, depth int) (bool, string) {
+			if depth > 6 {
+				return false, "definition chain too deep"
+			}
+			e = core.Unparen(e)
+			switch x := e.(type) {
+			case *ast.UnaryExpr:
+				if x.Op == token.AND {
+					if _, ok := core.Unparen(x.X).(*ast.CompositeLit); ok {
+						return true, ""
+					}
+				}
+			case *ast.CompositeLit:
+				return true, ""
+			case *ast.TypeAssertExpr:
+				return fresh(x.X, depth+1)
+			case *ast.SelectorExpr:
+				// a message taken from the source node being converted: per node
+				if root := rootIdent(x); root != nil {
+					if obj := info.Uses[root]; obj != nil && obj.Parent() != pk.Types.Scope() {
+						if _, isPkg := obj.(*types.PkgName); !isPkg {
+							return true, ""
+						}
+					}
+				}
+				return false, core.ExprStr(x)
+			case *ast.CallExpr:
+				name := core.CalleeName(info, x)
+				if name == "google.golang.org/protobuf/proto.GetExtension" || name == "google.golang.org/protobuf/proto.Clone" {
+					return true, ""
+				}
+				if fn := core.CalleeFunc(info, x); fn != nil && fn.Pkg() != nil && core.IsSource(fn.Pkg().Path()) {
+					return true, "" // module constructor: its own SetExtension-free body is not followed; parameters are per call
+				}
+				return false, "result of " + name
+			case *ast.Ident:
+				obj := info.Uses[x]
+				if obj == nil {
+					return false, "unresolved " + x.Name
+				}
+				if obj.Parent() == pk.Types.Scope() {
+					return false, "package-level variable " + x.Name
+				}
+				if _, isVar := obj.(*types.Var); !isVar {
+					return false, x.Name
+				}
+				// parameter: per call
+				isParam := false
+				for _, fl := range []*ast.FieldList{fd.Type.Params, fd.Recv} {
+					if fl == nil {
+						continue
+					}
+					for _, f := range fl.List {
+						for _, nm := range f.Names {
+							if info.Defs[nm] == obj {
+								isParam = true
+							}
+						}
+					}
+				}
+				if isParam {
+					return true, ""
+				}
+				ok, why := true, ""
+				seen := false
+				ast.Inspect(fd.Body, func(nd ast.Node) bool {
+					as, isAs := nd.(*ast.AssignStmt)
+					if !isAs {
+						return true
+					}
+					for i, l := range as.Lhs {
+						id, isID := l.(*ast.Ident)
+						if !isID || (info.Defs[id] != obj && info.Uses[id] != obj) {
+							continue
+						}
+						seen = true
+						var rhs ast.Expr
+						if len(as.Rhs) == len(as.Lhs) {
+							rhs = as.Rhs[i]
+						} else if len(as.Rhs) == 1 {
+							rhs = as.Rhs[0]
+						}
+						if rhs == nil {
+							continue
+						}
+						if f, w := fresh(rhs, depth+1); !f {
+							ok, why = false, w
+						}
+					}
+					return true
+				})
+				if !seen {
+					return true, "" // declared with var: zero value, assigned field by field
+				}
+				return ok, why
+			}
+			return false, core.ExprStr(e)
+		}
+		ast.Inspect(fd.Body, func(nd ast.Node) bool {
+			c, ok := nd.(*ast.CallExpr)
+			if !ok || core.CalleeName(info, c) != "google.golang.org/protobuf/proto.SetExtension" || len(c.Args) != 3 {
+				return true
+			}
+			n++
+			o := r.Add("R-SYM/S9", fmt.Sprintf("%s | SetExtension(%s, %s)", core.FuncName(fd), core.ExprStr(c.Args[1]), core.ExprStr(c.Args[2])), c.Pos(), "message stored as an extension value")
+			if ok, why := fresh(c.Args[2], 0); ok {
+				o.Auto("per-field value")
+			} else {
+				o.Fail("the stored message is %s: it is shared by every field that takes this path, and a later in-place update (Required, rules) of one field's options changes them all", why)
+			}
+			return true
+		})
+	})
+	r.Floor("R-SYM/S9", 20, "proto.SetExtension calls in j5convert")
 }
